@@ -9,6 +9,7 @@ import (
 	"os"
 	"runtime/debug"
 	"sort"
+	"strconv"
 	"strings"
 	"sync"
 	"time"
@@ -68,6 +69,7 @@ type HarnessResult struct {
 	Shapes       map[string]int
 	WallS        float64
 	StaticCovers []string
+	Fallbacks    int
 	problemSeen  map[string]int
 }
 
@@ -154,8 +156,28 @@ func (e *explorer) worker(id int) {
 	cfgCopy := *e.cfg
 	ex := &Exec{P: e.P, cfg: &cfgCopy, lc: newLayoutCache()}
 	ex.tt = NewTermTable()
-	ex.solver = NewSolver(e.cfg.Solver, e.cfg.TimeoutMs)
-	defer ex.solver.Close()
+	// "a@5,b@120": a portfolio tried in order until one gives a verdict
+	spec := string(e.cfg.Solver)
+	if strings.Contains(spec, "|") {
+		ex.race = true
+		spec = strings.ReplaceAll(spec, "|", ",")
+	}
+	for i, part := range strings.Split(spec, ",") {
+		kind, tmo := part, e.cfg.TimeoutMs
+		if j := strings.IndexByte(part, '@'); j >= 0 {
+			kind = part[:j]
+			if n, err := strconv.Atoi(part[j+1:]); err == nil {
+				tmo = n * 1000
+			}
+		}
+		sv := NewSolver(SolverKind(kind), tmo)
+		defer sv.Close()
+		if i == 0 {
+			ex.solver = sv
+		} else {
+			ex.fallbacks = append(ex.fallbacks, sv)
+		}
+	}
 	if e.cfg.Debug && id == 0 {
 		f, _ := os.Create(fmt.Sprintf("/verif/.work/queries-%s.smt2", e.fn.Name()))
 		ex.solver.LogFile = f
@@ -182,6 +204,10 @@ func (e *explorer) worker(id int) {
 	e.res.ModelHits += ex.nModelHits
 	e.res.Decisions += ex.nBranchDecisions
 	e.res.SolverNs += ex.solver.TimeNs
+	for _, fb := range ex.fallbacks {
+		e.res.SolverNs += fb.TimeNs
+	}
+	e.res.Fallbacks += ex.nFallbacks
 	for f := range funcs {
 		if !e.P.isHarnessFunc(f) {
 			e.res.Funcs[f.String()] = true
